@@ -300,7 +300,11 @@ impl<'a> Case<'a> {
         Case {
             cfg,
             rig,
-            model: Model::new(NVECS, cfg.fixed_cap),
+            model: {
+                let mut m = Model::new(NVECS, cfg.fixed_cap);
+                m.cloneable = cfg.cloneable;
+                m
+            },
             ids: IdGen::new(cfg.elem.id_bits),
             allowed_leak: HashMap::new(),
             desc: String::new(),
@@ -382,7 +386,15 @@ impl<'a> Case<'a> {
         let _ = reg::take_clone_log();
         let before: Vec<Snap> = (0..NVECS).map(|v| self.rig.snap(v)).collect();
         let exp = self.model.apply(op);
+        let gm0 = guardmem::counters();
+        let ma0 = monalloc::stats();
+        let ta0 = monalloc::thread_allocs();
+        let ev0 = reg::event_counts();
         let out = self.rig.exec(op);
+        let ta1 = monalloc::thread_allocs();
+        let gm1 = guardmem::counters();
+        let ma1 = monalloc::stats();
+        let ev1 = reg::event_counts();
         let desc = format!("{} | {op}", self.desc);
         let cfgname = self.cfg.name.clone();
         if out.unsupported {
@@ -441,8 +453,91 @@ impl<'a> Case<'a> {
             }
         }
         ctx.stats.bump("clone_events", clones.len() as u64);
+        ctx.stats.bump("drop_events", ev1.1 - ev0.1);
+        // no operation on an inline (stack) backend may allocate
+        if matches!(self.cfg.mem, MemKind::Stack | MemKind::StackN) {
+            ctx.stats.bump("stack_ops_watched", 1);
+            if ta1 != ta0 {
+                self.failed = true;
+                ctx.report(&cfgname, "stack-alloc", &sig, format!("{} heap allocation(s) during an operation on a stack-backed vector", ta1 - ta0), &desc);
+            }
+        }
+        self.capacity_check(ctx, op, &sig, &desc, &before, &out, (gm0, gm1), (ma0, ma1), (ev0, ev1));
         self.post_check(ctx, &sig, &desc, &exp.resync, Some(&before));
         (out, exp)
+    }
+
+    /// Postconditions of the capacity-management calls (C10).
+    #[allow(clippy::too_many_arguments)]
+    fn capacity_check(
+        &mut self,
+        ctx: &mut Ctx,
+        op: &Op,
+        sig: &str,
+        desc: &str,
+        before: &[Snap],
+        out: &Outcome,
+        gm: ((u64, u64, u64, u64, u64, u64), (u64, u64, u64, u64, u64, u64)),
+        ma: (monalloc::Stats, monalloc::Stats),
+        ev: ((u64, u64, u64), (u64, u64, u64)),
+    ) {
+        let cfgname = self.cfg.name.clone();
+        let (v, kind) = match op {
+            Op::Reserve { v, .. } => (*v, 0),
+            Op::ShrinkToFit { v, .. } => (*v, 1),
+            Op::ShrinkTo { v, .. } => (*v, 2),
+            _ => return,
+        };
+        if out.unsupported || out.panicked {
+            return;
+        }
+        ctx.stats.bump("capacity_calls_checked", 1);
+        let b = &before[v];
+        let a = self.rig.snap(v);
+        let heap = self.cfg.mem == MemKind::Heap;
+        let backend_events = (gm.1 .1 - gm.0 .1) + (gm.1 .2 - gm.0 .2) + (gm.1 .3 - gm.0 .3);
+        let alloc_events = (ma.1.allocs - ma.0.allocs) + (ma.1.reallocs - ma.0.reallocs) + (ma.1.deallocs - ma.0.deallocs);
+        if ev.0 != ev.1 {
+            self.failed = true;
+            ctx.report(&cfgname, "capacity", sig, "a capacity call ran element Drop/Clone code".to_string(), desc);
+        }
+        match (kind, op) {
+            (0, Op::Reserve { n, .. }) => {
+                let need = b.len.saturating_add(*n);
+                if a.cap < need {
+                    self.failed = true;
+                    ctx.report(&cfgname, "capacity", sig, format!("reserve({n}) with len {} returned with capacity {} < len + n", b.len, a.cap), desc);
+                }
+                if b.cap >= need {
+                    ctx.stats.bump("reserve_noop_checked", 1);
+                    if a.cap != b.cap || a.base != b.base || backend_events != 0 || alloc_events != 0 {
+                        self.failed = true;
+                        ctx.report(&cfgname, "capacity", sig, format!(
+                            "reserve({n}) with sufficient capacity {} (len {}) changed capacity to {} / moved storage ({} backend, {} allocator events)",
+                            b.cap, b.len, a.cap, backend_events, alloc_events), desc);
+                    }
+                }
+            }
+            (1, _) | (2, _) => {
+                let bound = match op {
+                    Op::ShrinkTo { n, .. } => b.len.max(*n),
+                    _ => b.len,
+                };
+                if a.cap > b.cap {
+                    self.failed = true;
+                    ctx.report(&cfgname, "capacity", sig, format!("capacity grew from {} to {} (len {}, bound {})", b.cap, a.cap, b.len, bound), desc);
+                }
+                if a.cap < bound.min(b.cap) {
+                    self.failed = true;
+                    ctx.report(&cfgname, "capacity", sig, format!("capacity {} fell below max(len, bound) = {} (was {})", a.cap, bound.min(b.cap), b.cap), desc);
+                }
+                if heap && a.cap != b.cap.min(bound) {
+                    self.failed = true;
+                    ctx.report(&cfgname, "capacity", sig, format!("heap backend ended at capacity {} instead of min(old {}, bound {})", a.cap, b.cap, bound), desc);
+                }
+            }
+            _ => {}
+        }
     }
 
     fn resync(&mut self, v: usize) {
@@ -516,6 +611,49 @@ impl<'a> Case<'a> {
                 if let Val::Id(i) = x {
                     *visible.entry(*i).or_insert(0) += 1;
                 }
+            }
+        }
+        // separately owned storage
+        let snaps: Vec<Snap> = (0..NVECS).map(|v| self.rig.snap(v)).collect();
+        for i in 0..NVECS {
+            for j in i + 1..NVECS {
+                if snaps[i].cap > 0 && snaps[j].cap > 0 && self.cfg.elem.size > 0 && snaps[i].base == snaps[j].base {
+                    self.failed = true;
+                    ctx.report(&cfgname, "shared-storage", sig, format!("v{i} and v{j} use the same storage at {:#x}", snaps[i].base), desc);
+                }
+            }
+        }
+        // heap shape: at most one block per vector, none while capacity x size == 0, large and aligned enough
+        if self.cfg.mem == MemKind::Heap {
+            let st = monalloc::stats();
+            let owning = snaps.iter().filter(|s| s.cap > 0 && self.cfg.elem.size > 0).count() as u64;
+            ctx.stats.bump("heap_shape_checks", 1);
+            if st.live != owning {
+                self.failed = true;
+                ctx.report(&cfgname, "alloc-shape", sig, format!(
+                    "{} live heap block(s) attributed to the library, but {} vector(s) have capacity x size > 0 (capacities {:?})",
+                    st.live, owning, snaps.iter().map(|s| s.cap).collect::<Vec<_>>()), desc);
+            }
+            for (i, sn) in snaps.iter().enumerate() {
+                if sn.cap > 0 && self.cfg.elem.size > 0 && sn.cap <= (1 << 40) {
+                    let bytes = sn.cap * self.cfg.elem.size;
+                    if monalloc::covers(sn.base, bytes, self.cfg.elem.align).is_none() {
+                        self.failed = true;
+                        ctx.report(&cfgname, "alloc-shape", sig, format!(
+                            "v{i}: storage {:#x} (+{} bytes, align {}) is not inside one live, suitably aligned heap block", sn.base, bytes, self.cfg.elem.align), desc);
+                    }
+                }
+            }
+        }
+        // by-value accounting for element types without drop glue
+        if !self.cfg.elem.tracked && resync.is_empty() {
+            let mut want: Vec<Id> = self.model.vecs.iter().flatten().copied().collect();
+            let mut got: Vec<Id> = visible.iter().flat_map(|(i, n)| std::iter::repeat(*i).take(*n as usize)).collect();
+            want.sort();
+            got.sort();
+            if want != got {
+                self.failed = true;
+                ctx.report(&cfgname, "value-accounting", sig, format!("values held by the vectors {:?} differ from the values placed in them {:?}", got, want), desc);
             }
         }
         // registry balance
@@ -692,6 +830,8 @@ pub fn opsig(op: &Op) -> String {
     }
     match op {
         Op::LazyMulti(m) => format!("lazy{}({:?})x{}", m.depth, m.kind, m.uses.len()),
+        Op::IterScript { how, clone_at, .. } => format!("{how:?}.script{}", if clone_at.is_some() { "+clone" } else { "" }),
+        Op::CloneEmptyIn { target, .. } => format!("clone_empty_in({target:?})"),
         Op::Push { src: s, .. } => format!("push({})", src(s)),
         Op::Insert { src: s, .. } => format!("insert({})", src(s)),
         Op::Pop { sink: s, .. } => format!("pop->{}", sink(s)),
